@@ -549,15 +549,27 @@ func c18r3(p *Program, r *Report) {
 		nilV, nilK := f.KnownStr("f.compres == nil")
 		r.Check(nilK && !nilV, site.Call, site.Fn.Name+" checks for a compressor before decoding", "f.compres != nil known", "a compressed frame is decoded without checking that a compressor is configured: nil dereference instead of an error")
 		// the nil-compressor branch is an error
-		okNil := false
-		ast.Inspect(site.Fn.Decl.Body, func(x ast.Node) bool {
-			if ifs, ok := x.(*ast.IfStmt); ok && strings.ReplaceAll(exprStr(ifs.Cond), " ", "") == "f.compres==nil" && p.terminates(site.Fn.Pkg.TypesInfo, ifs.Body.List) {
-				if rs, ok := ifs.Body.List[len(ifs.Body.List)-1].(*ast.ReturnStmt); ok && len(rs.Results) >= 1 && !isNil(site.Fn.Pkg.TypesInfo, rs.Results[len(rs.Results)-1]) {
-					okNil = true
+		// every return reached with the compressor known to be missing reports an error (and there is one)
+		okNil, nNil := true, 0
+		gfacts := g.GuardFacts()
+		inspectNoLit(site.Fn.Decl.Body, func(x ast.Node) bool {
+			rs, ok := x.(*ast.ReturnStmt)
+			if !ok || len(rs.Results) == 0 {
+				return true
+			}
+			fb, reach := gfacts.Before(rs)
+			if !reach {
+				return true
+			}
+			if v, known := fb.KnownStr("f.compres == nil"); known && v {
+				nNil++
+				if isNil(site.Fn.Pkg.TypesInfo, rs.Results[len(rs.Results)-1]) {
+					okNil = false
 				}
 			}
 			return true
 		})
+		okNil = okNil && nNil > 0
 		r.Check(okNil, site.Call, site.Fn.Name+": compressed frame without compressor is an error", "returns an error", "a compressed response on a connection without compressor is not an error")
 		// the decoder's error is returned: the error variable is returned itself, or tested and a non-nil error returned
 		errVar := resultVarOf(p, site.Call, 1)
